@@ -226,8 +226,11 @@ def fam_life(seed, maxk, causes=("close", "ctxcancel", "carfail", "stop", "srvgo
                          "faults": [{"at": 0, "step": FAULTS[cause]}]}
                     if cause == "gstop+stop":
                         p["faults"].append({"at": -1, "step": {"do": "stop"}})
-                    out.append(scenario("life-%s-%s-%s-%s" % (wname, cname, pol, cause), cfg, copy.deepcopy(rpcs), p,
-                                        meta={"family": "life", "cause": cause}))
+                    sc = scenario("life-%s-%s-%s-%s" % (wname, cname, pol, cause), cfg, copy.deepcopy(rpcs), p,
+                                  meta={"family": "life", "cause": cause})
+                    # RPCs attempted after the tunnel ended must fail at once and leave nothing behind
+                    sc["late"] = [rpc_script(7, "bidi", [9], [4]), rpc_script(8, "unary_invoke", [6], resp=2)]
+                    out.append(sc)
     return out
 
 
@@ -437,7 +440,7 @@ GATES = [
 ]
 
 
-def fam_gates(seed, maxk, gates=None, dirs=("fwd", "rev"), faults=("none", "cancel", "close"), policies=("eager",)):
+def fam_gates(seed, maxk, gates=None, dirs=("fwd", "rev"), faults=("none", "cancel@park", "close@park", "cancel", "close"), policies=("eager",)):
     """hold the first goroutine that reaches a yield point (inside the library, or
     inside the carrier after a frame is on the wire) while everything else runs as
     far as it can, then release it: every multi-step procedure is observed in its
@@ -457,6 +460,11 @@ def fam_gates(seed, maxk, gates=None, dirs=("fwd", "rev"), faults=("none", "canc
                         p.update({"allK": True, "maxK": maxk or 6, "faults": [{"at": 0, "step": {"do": "cancel", "rpc": 1}}]})
                     elif fault == "close":
                         p.update({"allK": True, "maxK": maxk or 6, "faults": [{"at": 0, "step": {"do": "close"}}]})
+                    elif fault == "cancel@park":
+                        # exactly while the goroutine is held at the gate
+                        p.update({"faults": [{"at": -2, "step": {"do": "cancel", "rpc": 1}}]})
+                    elif fault == "close@park":
+                        p.update({"faults": [{"at": -2, "step": {"do": "close"}}]})
                     out.append(scenario("gate-%s-%s-%s-%s-%s" % (g, wname, d, pol, fault), cfg, copy.deepcopy(rpcs), p,
                                         meta={"family": "gates", "gate": g, "done": [r["rpc"] for r in rpcs] if fault == "none" else []}))
     return out
